@@ -43,7 +43,7 @@ REQUIRED = {
 
 
 def run(ctx):
-    for fn in (r1_shortcut, r2_flag_table, r3_symmetry, r4_regex_facts, r6_verdict_sources, r7_regex_call_shape):
+    for fn in (r1_shortcut, r2_flag_table, r3_symmetry, r4_regex_facts, r6_verdict_sources, r7_regex_call_shape, r8_wildcard_bounds):
         ctx.rep.rule(fn, ctx)
 
 
@@ -150,6 +150,13 @@ def verdict_sources(ctx, rule, only_ellipsis=False):
 
 def r6_verdict_sources(ctx):
     verdict_sources(ctx, 'C05.R6')
+
+
+def r8_wildcard_bounds(ctx):
+    """'...' acts as a wildcard and nothing else: the scan bounds of the matcher (same clause as C06.R3)"""
+    from . import c06
+    from .common import run_as
+    run_as(ctx, c06.r3_bounds_reach_scan, 'C06.R3', 'C05.R8')
 
 
 def r7_regex_call_shape(ctx):
